@@ -222,7 +222,7 @@ int main(void)
 """
 
 
-def targets():
+def targets(tier='quick'):
     def rd():
         f = parameter_read()
         f.post = _case_fix
@@ -243,4 +243,7 @@ def targets():
         Target('param_write_fprange', [range_helper('p', 'write', 'double')] + sc('write'), H),
         Target('parameter_read', rd, H, enforce_none=True, harness=READ_HARNESS, loops=0),
         Target('parameter_write', wr, H, enforce='parameter_write'),
-    ] + [Target(f'parameter_roundtrip_alt{k}', both, H, enforce_none=True, harness=ROUNDTRIP, defines=['NV_ROUNDTRIP', f'NV_ALT={k}'], loops=0) for k in range(7)]
+    ] + [Target(f'parameter_roundtrip_alt{k}', both, H, enforce_none=True, harness=ROUNDTRIP, defines=['NV_ROUNDTRIP', f'NV_ALT={k}'], loops=0)
+         # quick: empty (the reset of a used object), enum (strings, vector), scalar pair range (doubles, three flags; the integer members go
+         # through the same helper template); thorough adds integer range, scalar range, integer pair range, string
+         for k in range(7) if tier == 'thorough' or k in (0, 1, 5)]
